@@ -31,6 +31,14 @@ func TestMain(m *testing.M) {
 			"non-trivial = the string parses as a ref, or differs from a parsing ref by exactly one character/length step; distinct = FNV-64 of the string (or of the ref list for ordering cases)")
 }
 
+// scratchRefs are formatted between taking an encoding and checking it (see checkString).
+var scratchRefs = []blob.Ref{
+	blob.MustParse("sha224-d14a028c2a3a2bc9476102bb288234c415a2b01f828ea62ac5b3e42f"),
+	blob.MustParse("sha1-da39a3ee5e6b4b0d3255bfef95601890afd80709"),
+	blob.MustParse("sha256-e3b0c44298fc1c149afbf4c8996fb92427ae41e4649b934ca495991b7852b855"),
+	blob.MustParse("foo-0b0c"),
+}
+
 var supported = map[string]int{"sha1": 20, "sha224": 28, "sha256": 32}
 var testNames = map[string]bool{"fakeref": true, "testref": true, "perma": true}
 
@@ -185,6 +193,24 @@ func checkString(s string) (parsed bool, err error) {
 	jb, jerr := json.Marshal(ref)
 	if jerr != nil || string(jb) != `"`+s+`"` {
 		return ok, mm("MarshalJSON(%q) = %s, %v", s, jb, jerr)
+	}
+	// the encodings must be stable values: still the same bytes after other refs were formatted/encoded
+	// (an encoder handing out a recycled buffer would only be visible to callers that hold the result)
+	mj, _ := ref.MarshalJSON()
+	mb, _ := ref.MarshalBinary()
+	for _, o := range scratchRefs {
+		_ = o.String()
+		_ = o.Digest()
+		_ = o.StringMinusOne()
+		o.MarshalJSON()
+		o.MarshalBinary()
+	}
+	_ = ref.String()
+	if string(mj) != `"`+s+`"` {
+		return ok, mm("MarshalJSON(%q) result changed to %q after other refs were formatted", s, mj)
+	}
+	if mb2, _ := ref.MarshalBinary(); !bytes.Equal(mb, mb2) {
+		return ok, mm("MarshalBinary(%q) result changed after other refs were formatted", s)
 	}
 	var back blob.Ref
 	if err := json.Unmarshal(jb, &back); err != nil || back != ref {
